@@ -25,10 +25,30 @@ typedef struct {
 
 static int ptg_norm(int k, int n) { int r = k % n; return r < 0 ? r + n : r; }
 
+/* Placement.  Default: rank_of(k) = k mod nodes.  With PTG_DIST=tab:r0,r1,.. (C05): the owner of element k is
+ * table[(k mod nt) mod table length] mod nodes — any distribution (2D block-cyclic, tabular, hash of the index) is given
+ * as its table over the nt tiles, so that the owner is a function of the TILE and every tile has one owner. */
+static int *ptg_dist_tab; static int ptg_dist_len;
+static void ptg_dist_init(void)
+{
+    const char *e = getenv("PTG_DIST");
+    if (!e || strncmp(e, "tab:", 4)) return;
+    const char *p = e + 4; char *q;
+    ptg_dist_tab = calloc(strlen(e) + 1, sizeof(int));
+    for (;;) { long x = strtol(p, &q, 10); if (q == p) break; ptg_dist_tab[ptg_dist_len++] = (int)x; p = q; if (*p == ',') p++; }
+    if (ptg_dist_len == 0) { free(ptg_dist_tab); ptg_dist_tab = NULL; }
+}
+static uint32_t ptg_owner(int tile_or_k, int nt, int nodes)
+{
+    if (ptg_dist_tab) return (uint32_t)ptg_norm(ptg_dist_tab[ptg_norm(tile_or_k, nt) % ptg_dist_len], nodes);
+    return (uint32_t)ptg_norm(tile_or_k, nodes);
+}
+static int ptg_nt_of(parsec_data_collection_t *d);
+
 static uint32_t ptg_rank_of(parsec_data_collection_t *d, ...)
 {
     va_list ap; va_start(ap, d); int k = va_arg(ap, int); va_end(ap);
-    return (uint32_t)ptg_norm(k, (int)d->nodes);
+    return ptg_owner(k, ptg_nt_of(d), (int)d->nodes);
 }
 static int32_t ptg_vpid_of(parsec_data_collection_t *d, ...) { (void)d; return 0; }
 static parsec_data_key_t ptg_data_key(parsec_data_collection_t *d, ...)
@@ -43,7 +63,11 @@ static parsec_data_t *ptg_data_of(parsec_data_collection_t *d, ...)
     int t = ptg_norm(k, m->nt);
     return parsec_data_create(&m->data[t], d, t, &m->ptr[t * PTG_TILE], PTG_TILE * sizeof(int32_t), 0);
 }
-static uint32_t ptg_rank_of_key(parsec_data_collection_t *d, parsec_data_key_t key) { return (uint32_t)(key % d->nodes); }
+static int ptg_nt_of(parsec_data_collection_t *d) { return ((ptg_dc_t *)d)->nt; }
+static uint32_t ptg_rank_of_key(parsec_data_collection_t *d, parsec_data_key_t key)
+{
+    return ptg_dist_tab ? ptg_owner((int)key, ptg_nt_of(d), (int)d->nodes) : (uint32_t)(key % d->nodes);
+}
 static int32_t ptg_vpid_of_key(parsec_data_collection_t *d, parsec_data_key_t key) { (void)d; (void)key; return 0; }
 static parsec_data_t *ptg_data_of_key(parsec_data_collection_t *d, parsec_data_key_t key) { return ptg_data_of(d, (int)key); }
 
@@ -122,6 +146,9 @@ static int64_t ptg_mix(int64_t h, int64_t x) { return (h * 31 + (x & 0xffffffffL
 void ptg_task_begin(int th, int cls, int nloc, ...)
 {
     ptg_scr[th % PTG_MAXTH].nfl = 0;
+    for (int f = 0; f < PTG_MAXF; f++) {      /* flows that are not announced (CTL) count as "no value" in the hash */
+        ptg_scr[th % PTG_MAXTH].in[f] = PTG_NONE; ptg_scr[th % PTG_MAXTH].ptr[f] = NULL; ptg_scr[th % PTG_MAXTH].mode[f] = 0;
+    }
     va_list ap; va_start(ap, nloc);
     /* the stamp is taken here: everything the body does comes after it */
     ptg_ev_t *e = ptg_new_ev('b', th, cls, nloc, ap);       /* 'b' = begin under construction: flows follow */
@@ -289,6 +316,7 @@ int ptg_rt_main(int argc, char **argv, int nglobals, ptg_make_fn mk, ptg_initial
 #else
     ptg_world = 1; ptg_rank = 0;
 #endif
+    ptg_dist_init();
     ptg_out = stdout;
     if (outfile) {
         char name[1024];
@@ -318,6 +346,14 @@ int ptg_rt_main(int argc, char **argv, int nglobals, ptg_make_fn mk, ptg_initial
     if (keyfile) ptg_probe_keys(tp, keyfile);
     ptg_dump_events(0);
     fprintf(ptg_out, "end => complete\n");
+    /* C05 (PTG_GATHER=1): remember the local tiles; they are gathered on rank 0 after parsec_fini (the communication
+     * thread is then gone: MPI is initialised with MPI_THREAD_SERIALIZED) */
+    int gather_nt = dc->nt;
+    int32_t *mine = NULL;
+    if (getenv("PTG_GATHER")) {
+        mine = malloc(sizeof(int32_t) * (size_t)dc->nt);
+        for (int t = 0; t < dc->nt; t++) mine[t] = dc->ptr[t * PTG_TILE];
+    }
     /* final contents of the collection (C02) */
     fprintf(ptg_out, "#final");
     for (int t = 0; t < dc->nt; t++) fprintf(ptg_out, " %d", dc->ptr[t * PTG_TILE]);
@@ -328,6 +364,25 @@ int ptg_rt_main(int argc, char **argv, int nglobals, ptg_make_fn mk, ptg_initial
     parsec_taskpool_free(tp);
     ptg_dc_free(dc);
     parsec_fini(&ctx);
+    if (mine) {       /* the final contents of the collection on rank 0, every tile taken from its owner */
+        int32_t *all = NULL;
+#if defined(PARSEC_HAVE_MPI)
+        if (ptg_world > 1) {
+            if (ptg_rank == 0) all = malloc(sizeof(int32_t) * (size_t)gather_nt * (size_t)ptg_world);
+            MPI_Gather(mine, gather_nt, MPI_INT32_T, all, gather_nt, MPI_INT32_T, 0, MPI_COMM_WORLD);
+        }
+#endif
+        if (ptg_rank == 0) {
+            fprintf(ptg_out, "final =>");
+            for (int t = 0; t < gather_nt; t++) {
+                int o = (int)ptg_owner(t, gather_nt, ptg_world);
+                fprintf(ptg_out, " %d", all ? all[(size_t)o * (size_t)gather_nt + t] : mine[t]);
+            }
+            fprintf(ptg_out, "\n");
+            fflush(ptg_out);
+        }
+        free(mine); free(all);
+    }
 #if defined(PARSEC_HAVE_MPI)
     MPI_Finalize();
 #endif
